@@ -61,6 +61,10 @@ type raceDesc struct {
 	Hammer string `json:"hammer,omitempty"`
 }
 
+// rejectedByFam: requests that every family must refuse, by family (filled by
+// raceRequests); the hammer loops interleave them with the valid requests.
+var rejectedByFam map[string][]Req
+
 var hammerFamilies = []string{"ean", "code128", "code39", "code93", "codabar", "2of5", "code128nocs", "qr", "datamatrix", "pdf417", "aztec"}
 
 var raceFocuses = []string{"rs-climb", "aztec-10bit", "aztec-12bit", "pdf417", "aztec-small", "datamatrix-big", "qr-big", "onedim", "rs-climb", "aztec-8bit"}
@@ -178,6 +182,17 @@ func raceRequests(d *raceDesc) [][]Req {
 		{Fam: "code128", S: []byte("\u00e9x"), Scheme: -1}, {Fam: "code128nocs", S: nil, Scheme: -1}, {Fam: "2of5", S: []byte("12a4"), I: []int64{1}, Scheme: -1}, {Fam: "2of5", S: []byte("123"), I: []int64{1}, Scheme: -1},
 		{Fam: "ean", S: []byte("1234567x"), Scheme: -1}, {Fam: "ean", S: []byte("12345671"), Scheme: -1}, {Fam: "pdf417", S: []byte("x"), I: []int64{9}, Scheme: -1},
 		{Fam: "aztec", S: []byte("x"), I: []int64{33, 40}, Scheme: -1}, {Fam: "datamatrix", S: bytes.Repeat([]byte{0xfe}, 900), Scheme: -1}, {Fam: "qr", S: []byte("12a"), I: []int64{0, 1}, Scheme: -1},
+		// the later rejection paths: too much for the requested / the largest size
+		{Fam: "aztec", S: bytes.Repeat([]byte{0x81}, 66), I: []int64{5, -4}, Scheme: -1}, {Fam: "aztec", S: bytes.Repeat([]byte{0x90}, 70), I: []int64{0, -4}, Scheme: -1}, {Fam: "aztec", S: bytes.Repeat([]byte("a"), 40), I: []int64{33, -1}, Scheme: -1},
+		{Fam: "aztec", S: bytes.Repeat([]byte{0xf0}, 300), I: []int64{23, 3}, Scheme: -1}, {Fam: "aztec", S: bytes.Repeat([]byte{0xaa}, 2600), I: []int64{33, 0}, Scheme: -1}, {Fam: "aztec", S: []byte("percent"), I: []int64{5000, 1}, Scheme: -1},
+		{Fam: "qr", S: bytes.Repeat([]byte("A"), 4297), I: []int64{0, 2}, Scheme: -1}, {Fam: "qr", S: bytes.Repeat([]byte("7"), 3058), I: []int64{3, 0}, Scheme: -1}, {Fam: "qr", S: []byte("lower case"), I: []int64{1, 2}, Scheme: -1},
+		{Fam: "pdf417", S: bytes.Repeat([]byte{0xc1}, 1200), I: []int64{2}, Scheme: -1}, {Fam: "pdf417", S: bytes.Repeat([]byte("Z"), 900), I: []int64{8}, Scheme: -1},
+		{Fam: "datamatrix", S: bytes.Repeat([]byte("q"), 1559), Scheme: -1}, {Fam: "code128", S: bytes.Repeat([]byte("k"), 81), Scheme: -1}, {Fam: "code128", S: []byte("ok then \xff"), Scheme: -1},
+		{Fam: "ean", S: []byte("123456"), Scheme: -1}, {Fam: "ean", S: []byte("4006381333932"), Scheme: -1}, {Fam: "codabar", S: []byte("A12"), Scheme: -1}, {Fam: "code39", S: []byte("UPPER lower"), I: []int64{0, 0}, Scheme: -1},
+	}
+	rejectedByFam = map[string][]Req{}
+	for _, q := range rejected {
+		rejectedByFam[q.Fam] = append(rejectedByFam[q.Fam], q)
 	}
 	fixed := []Req{
 		{Fam: "qr", S: []byte("hello world"), I: []int64{1, 0}, Scheme: -1}, // Auto: numeric fails, alphanumeric fails (producer break path), byte ok
@@ -319,6 +334,23 @@ func auxRaceWork(args []string) int {
 					}
 					scaledWant[y*sb.Dx()+x] = want
 				}
+			}
+		}
+	}
+	// further shared scaled 2D barcodes with large factors (8, 9, 13): rows far apart
+	// are read at the same time
+	type bigScaled struct {
+		bc, src barcode.Barcode
+		f       int
+		ox, oy  int
+	}
+	var bigs []bigScaled
+	if srcPDF != nil {
+		pb := srcPDF.Bounds()
+		for _, f := range []int{8, 9, 13} {
+			w, h := f*pb.Dx()+f-1, f*pb.Dy()+3
+			if sc, err := barcode.Scale(srcPDF, w, h); err == nil && sc != nil {
+				bigs = append(bigs, bigScaled{sc, srcPDF, f, (w - f*pb.Dx()) / 2, (h - f*pb.Dy()) / 2})
 			}
 		}
 	}
@@ -487,6 +519,24 @@ func auxRaceWork(args []string) int {
 						}
 					}
 				}
+				if i%3 == 2 && len(bigs) > 0 {
+					b := bigs[gr.Intn(len(bigs))]
+					sb, pb := b.bc.Bounds(), b.src.Bounds()
+					for k := 0; k < 400; k++ {
+						x, y := gr.Intn(sb.Dx()), gr.Intn(sb.Dy())
+						if k%2 == 0 {
+							y = (g*b.f*3 + k/8) % sb.Dy() // each goroutine stays in its own band of rows
+						}
+						var want color.Color = color.White
+						if x >= b.ox && x < b.ox+b.f*pb.Dx() && y >= b.oy && y < b.oy+b.f*pb.Dy() {
+							want = b.src.At((x-b.ox)/b.f, (y-b.oy)/b.f)
+						}
+						if got := b.bc.At(x, y); got != want {
+							probs[g] = append(probs[g], fmt.Sprintf("shared scaled barcode (factor %d): pixel (%d,%d) read concurrently = %v, want %v", b.f, x, y, got, want))
+							break
+						}
+					}
+				}
 				if i%4 == 3 {
 					// shared harness-owned RS encoders: random degrees, verified by syndromes
 					sh := shared[gr.Intn(len(shared))]
@@ -515,6 +565,16 @@ func auxRaceWork(args []string) int {
 					q := randomValidReq(gr, d.Hammer, -1)
 					if (d.Hammer == "code39" || d.Hammer == "code93") && len(q.S) == 0 {
 						continue
+					}
+					if rj := rejectedByFam[strings.TrimSuffix(d.Hammer, "nocs")]; it%7 == 3 && len(rj) > 0 {
+						// a refusal in between (error paths release or reset things too)
+						bad := rj[gr.Intn(len(rj))]
+						if bo := bad.call(); bo.panic != nil {
+							probs[g] = append(probs[g], fmt.Sprintf("hammer: %s panics: %v", bad, bo.panic))
+						} else if bo.err == nil {
+							probs[g] = append(probs[g], fmt.Sprintf("hammer: %s must be refused but was accepted", bad))
+						}
+						hammered[g]++
 					}
 					o := q.call()
 					hammered[g]++
